@@ -13,6 +13,8 @@ VERUS_UNITS = {
                  props=['C18', 'C04', 'C02', 'C03']),
     'U-CHK-V': dict(module='contracts.verus.yaml_chunker', min_verified=10, timeout=600,
                     props=['C03', 'C05', 'C04', 'C02', 'C12']),
+    'U-ENC-V': dict(module='contracts.verus.yaml_encoding', min_verified=15, timeout=600,
+                    props=['C07', 'C02', 'C04', 'C05', 'C12']),
     'U-CAP-V': dict(module='contracts.verus.input_capture', min_verified=18, timeout=600,
                     props=['C09', 'C02', 'C04', 'C05', 'C12']),
 }
